@@ -7,7 +7,7 @@ MC = os.path.join(WORK, "mc2")
 
 
 def lop(name, a=0, b=0, dl=0, **kw):
-    d = dict(op=name, a=a, b=b, dl=dl, x=0)
+    d = dict(op=name, a=a, b=b, dl=dl, x=0, objs=[])
     d.update(kw)
     return d
 
